@@ -468,14 +468,10 @@ class KafkaCodec(object):
         cls, client_id: bytes, correlation_id: int, api_version_request: ApiVersionRequest
     ) -> bytes:
         """
-        Encode an ApiVersionsRequest. Format::
-
-            ApiVersionsRequest => [ApiVersionRequest]
-                ApiVersionRequest => ApiKey
+        Encode an ApiVersionsRequest. Version 0 of the request has an empty
+        body: it consists of the request header only.
         """
-        return cls._encode_message_header(client_id, correlation_id, api_version_request.api_key) + struct.pack(
-            ">i", api_version_request.api_version
-        )
+        return cls._encode_message_header(client_id, correlation_id, api_version_request.api_key)
 
     @classmethod
     def decode_api_versions_response(cls, data: bytes) -> ApiVersionResponse:
